@@ -88,6 +88,7 @@ def run(F, rep, tier):
     key_norm(rep, lua)
     key_injective(rep, lua)
     keyed_table_size(rep, lua, mods)
+    externals_fully_typed(F, rep, mods)
     constructors(rep, lua)
     maybe_shape(F, rep, lua)
     index_base(rep, lua)
@@ -246,6 +247,53 @@ def key_norm(rep, lua):
                            name, container, form, major, len(norms[major]),
                            "" if form == major else ": an entry stored under the normalised key is never found (e.g. remove after update with a non-string key)"),
                        "sylt-compiler/src/preamble.lua:%s" % line)
+
+
+def externals_fully_typed(F, rep, mods):
+    """An external's declaration is all the checker knows about it.  A generic type of the library written without its
+    arguments (`-> Maybe` for `Maybe :: enum(*V)`) leaves the payload type open: whatever the program does with the payload
+    is accepted, although the Lua function returns one particular kind of value (as_char: a byte number)."""
+    import os
+    arity = {}
+    for m in sorted(mods):
+        text = F.read(os.path.join("std", m + ".sy"))
+        for mm in re.finditer(r"^([A-Z][A-Za-z0-9_]*)\s*::\s*(?:blob|enum|externblob)\s*(?:\(([^)]*)\))?", text, flags=re.M):
+            arity[mm.group(1)] = len([x for x in (mm.group(2) or "").split(",") if x.strip()])
+    n = 0
+
+    def walk_ty(t, out):
+        if not isinstance(t, tuple):
+            return
+        if t[0] == "user":
+            out.append(t)
+            for a in t[2]:
+                walk_ty(a, out)
+        elif t[0] == "fn":
+            for a in t[2]:
+                walk_ty(a, out)
+            walk_ty(t[3], out)
+        elif t[0] == "list":
+            walk_ty(t[1], out)
+        elif t[0] == "tuple":
+            for a in t[1]:
+                walk_ty(a, out)
+    for mname in sorted(mods):
+        for name, types in sorted(mods[mname]["externals"].items()):
+            for t in types:
+                users = []
+                walk_ty(t, users)
+                for u in users:
+                    base = u[1].split(".")[-1]
+                    if base not in arity or arity[base] == 0:
+                        continue
+                    n += 1
+                    ok = len(u[2]) == arity[base]
+                    rep.ob("EXTERNALS", "%s.%s|%s|type-arguments-given" % (mname, name, base), ok,
+                           "%s: %s is written with its %d type argument(s)" % (name, base, arity[base]) if ok else
+                           "the external `%s` is declared with `%s` without its type argument%s: the checker knows nothing about the "
+                           "payload, so `case %s(..) do Just c -> c + \"x\" ..` is accepted whatever the Lua function really returns"
+                           % (name, base, "s" if arity[base] > 1 else "", name), "std/%s.sy" % mname)
+    rep.floor("EXTERNALS", "generic library types in external signatures", n, 10)
 
 
 def keyed_table_size(rep, lua, mods):
